@@ -92,6 +92,25 @@ def parseCliW (binary : Bool) (s : String) : Option (List (Nat × Option (Rat ×
 
 def absR (q : Rat) : Rat := if q ≥ 0 then q else -q
 
+/-- the model of TBE: for each bootstrap tree in turn one run of the pool LTS over the reference
+    branches (`cpu` workers, the edge channel of capacity `cpu*10`, a schedule derived from the case),
+    then the normalisation.  `none` = a model run did not end closed with every branch delivered. -/
+def tbeModel (ref : T) (boots : List T) (threads : Nat) (seed : UInt64) : Option (List Rat) :=
+  let n := ref.splits.length
+  let rec go : List T → Nat → List Rat → Option (List Rat)
+    | [], _, sups => some sups
+    | b :: bs, k, sups =>
+      let sched := mkSched (seed + k.toUInt64) threads (8 * n + 6)
+      let fin := runToEnd shapeRecord (tbeItemFn ref b) (fun _ => false) threads (threads * 10) (tbeItems ref sups) sched
+      if !fin.closed || fin.panicked then none
+      else match tbeCollect n fin.out with
+        | some sups' => go bs (k + 1) sups'
+        | none => none
+  (go boots 0 (ref.splits.map fun _ => NIL)).map (tbeNormalize ref boots.length)
+
+/-- within 2⁻⁵⁰ (three float roundings of values in [0,1]) -/
+def approxAbs (a b : Rat) : Bool := absR (a - b) * (1125899906842624 : Rat) ≤ 1
+
 /-- a value printed on one line (the verdict protocol is line-based) -/
 def showL (f : Std.Format) : String :=
   (toString f).map fun c => if c == '\n' || c == '\t' then ' ' else c
@@ -120,17 +139,26 @@ def handle (op : String) (f : List String) : Verdict :=
         tagIf (nbad > 0 ∧ badPos + 1 == n) "bad-last" ++
         tagIf (nbad > 0 ∧ 0 < badPos ∧ badPos + 1 < n) "bad-middle" ++
         tagIf ref.rooted "rooted-ref" ++ tagIf tips "tips" ++ tagIf binary "binary" ++
-        tagIf (took ≥ 2) "observed-2-workers" ++ tagIf cancelled "cancelled" ++ tagIf (flags.contains 'r') "rf"
+        tagIf (took ≥ 2) "observed-2-workers" ++ tagIf cancelled "cancelled" ++ tagIf (flags.contains 'r') "rf" ++
+        tagIf (!ref.noSingle) "single-child-nodes" ++ tagIf (ref.kids.length == 1) "root-is-tip" ++
+        tagIf (ref.edges.any (·.len == NIL)) "absent-lengths" ++ tagIf (ref.edges.any (·.len == 0)) "zero-lengths" ++
+        tagIf (run.cli && flags.contains 'L') "opt-long" ++ tagIf (run.cli && flags.contains 'E') "opt-eq" ++
+        tagIf (run.cli && flags.contains 'P') "opt-before-subcommand" ++ tagIf (run.cli && flags.contains 'O') "opt-omitted" ++
+        tagIf (run.cli && flags.contains 'A') "alias-command" ++ tagIf (run.cli && threads > 16) "threads>cores"
+      -- the glue of the support commands: the log echoes the thread count the command was given,
+      -- whatever the form of the option (-t N, --threads N, --threads=N, before the sub-command, omitted = 1)
+      let cliLogOK := !((kind == "clifbp" || kind == "clitbe") && outcome == "ok") || took == (threads : Int)
       if !(runOK run) then
         ⟨.oracle, tags, runWhy run⟩
+      else if !cliLogOK then ⟨.tie, tags, "the command logged CPUs : " ++ toString took ++ " for " ++ toString threads ++ " threads"⟩
       else if cancelled then ⟨.pass, tags, ""⟩
       else
       -- the model: the pool LTS run under a schedule derived from the case
       let seed : UInt64 := (hash itemsS) + threads.toUInt64
       let sched := mkSched seed threads (8 * n + 6)
       -- capacity of the input channel: the harness feeds the library pools through an unbuffered channel
-      -- (1 in the model), the commands read through ReadMultiTrees (buffer of 10)
-      let cap : Nat := if run.cli then 10 else 1
+      -- (0: rendezvous), the commands read through ReadMultiTrees (buffer of 10)
+      let cap : Nat := if run.cli then 10 else 0
       let stops : (Nat × Item) → Bool := fun x => x.2.isBad ref
       let indexed := (List.range n).zip items
       if kind == "compare" then
@@ -203,6 +231,17 @@ def handle (op : String) (f : List String) : Verdict :=
             if okAll then ⟨.pass, "model-fbp" :: tags, ""⟩
             else ⟨.tie, tags, "model supports " ++ showL (repr model)⟩
         else ⟨.pass, "model-stop" :: tags, ""⟩
+      else if (kind == "tbe" || kind == "clitbe") && outcome == "ok" && nbad == 0 then
+        -- the supports against the model: C10's per-branch function run through the pool LTS
+        let boots := items.filterMap fun it => match it with | .tree t => some t | .err => none
+        let supS := (records.splitOn "#").headD ""
+        match parseRatList supS, tbeModel ref boots threads seed with
+        | none, _ => bad "C11.pool tbe records"
+        | _, none => ⟨.tie, tags, "model run of the TBE fan-out does not deliver every branch"⟩
+        | some sups, some model =>
+          if sups.length == model.length && (List.zip sups model).all (fun (a, m) => if m == NIL then a == NIL else approxAbs a m) then
+            ⟨.pass, "model-tbe" :: tags, ""⟩
+          else ⟨.tie, tags, "model supports " ++ showL (repr model)⟩
       else
         let fin := runToEnd shapeRecord (fun x : Nat × Item => x.1) stops threads cap indexed sched
         if !fin.closed || fin.panicked then ⟨.tie, tags, "model run does not end closed"⟩
